@@ -96,25 +96,29 @@ inductive Probe where
   | netErr    -- the request failed: the whole UpdaterSet call fails
   deriving Repr, BEq, DecidableEq
 
-/-- The `Minor:` loop for one major: the releases found, and whether one was
-    found at all (`foundLower`).  `none` = a request failed. -/
-def alpWalkMinor (dir : Nat → Nat → Probe) (maj : Nat) : Nat → Nat → Bool → List (Nat × Nat) → Option (List (Nat × Nat) × Bool)
-  | 0, _, fl, acc => some (acc, fl)
-  | fuel + 1, min, fl, acc =>
+/-- The `Minor:` loop for one major: the releases found, whether one was
+    found at all (`foundLower`), and whether some answer was neither 200 nor
+    404 (`incomplete`).  `none` = a request failed. -/
+def alpWalkMinor (dir : Nat → Nat → Probe) (maj : Nat) :
+    Nat → Nat → Bool → Bool → List (Nat × Nat) → Option (List (Nat × Nat) × Bool × Bool)
+  | 0, _, fl, inc, acc => some (acc, fl, inc)
+  | fuel + 1, min, fl, inc, acc =>
     match dir maj min with
-    | .ok => alpWalkMinor dir maj fuel (min + 1) true (acc ++ [(maj, min)])
-    | .notFound => some (acc, fl)
-    | .other => alpWalkMinor dir maj fuel (min + 1) fl acc
+    | .ok => alpWalkMinor dir maj fuel (min + 1) true inc (acc ++ [(maj, min)])
+    | .notFound => some (acc, fl, inc)
+    | .other => alpWalkMinor dir maj fuel (min + 1) fl true acc
     | .netErr => none
 
 /-- The `Major:` loop: majors from 3 (minors from 3 for major 3, else from 0)
     until a major has no release at all. -/
-def alpWalkMajor (dir : Nat → Nat → Probe) (fuelMin : Nat) : Nat → Nat → List (Nat × Nat) → Option (List (Nat × Nat))
-  | 0, _, acc => some acc
-  | fuel + 1, maj, acc =>
-    match alpWalkMinor dir maj fuelMin (if maj == 3 then 3 else 0) false [] with
+def alpWalkMajor (dir : Nat → Nat → Probe) (fuelMin : Nat) :
+    Nat → Nat → Bool → List (Nat × Nat) → Option (List (Nat × Nat) × Bool)
+  | 0, _, inc, acc => some (acc, inc)
+  | fuel + 1, maj, inc, acc =>
+    match alpWalkMinor dir maj fuelMin (if maj == 3 then 3 else 0) false inc [] with
     | none => none
-    | some (found, fl) => if fl then alpWalkMajor dir fuelMin fuel (maj + 1) (acc ++ found) else some (acc ++ found)
+    | some (found, fl, inc') =>
+      if fl then alpWalkMajor dir fuelMin fuel (maj + 1) inc' (acc ++ found) else some (acc ++ found, inc')
 
 def alpRepos : List Bytes := [[109, 97, 105, 110], [99, 111, 109, 109, 117, 110, 105, 116, 121]]
 
@@ -126,28 +130,34 @@ def alpRelString (r : Nat × Nat) : Bytes :=
   ClairModel.Gen.JoinReleases.alpine.stableString.eval [.int r.1, .int r.2]
 
 /-- The second half of the walk: for every release found, then edge, HEAD
-    `main.json` and `community.json`; 200 ⇒ an updater. -/
-def alpJsonRel (json : Bytes → Bytes → Probe) (rel : Bytes) : List Bytes → List Bytes → Option (List Bytes)
-  | [], acc => some acc
-  | repo :: repos, acc =>
+    `main.json` and `community.json`; 200 ⇒ an updater; 404 ⇒ none; anything
+    else ⇒ none, and the walk is incomplete. -/
+def alpJsonRel (json : Bytes → Bytes → Probe) (rel : Bytes) : List Bytes → Bool → List Bytes → Option (List Bytes × Bool)
+  | [], inc, acc => some (acc, inc)
+  | repo :: repos, inc, acc =>
     match json rel repo with
-    | .ok => alpJsonRel json rel repos (acc ++ [alpUpdaterName repo rel])
+    | .ok => alpJsonRel json rel repos inc (acc ++ [alpUpdaterName repo rel])
     | .netErr => none
-    | _ => alpJsonRel json rel repos acc
+    | .notFound => alpJsonRel json rel repos inc acc
+    | .other => alpJsonRel json rel repos true acc
 
-def alpWalkJson (json : Bytes → Bytes → Probe) : List Bytes → List Bytes → Option (List Bytes)
-  | [], acc => some acc
-  | rel :: rels, acc =>
-    match alpJsonRel json rel alpRepos acc with
+def alpWalkJson (json : Bytes → Bytes → Probe) : List Bytes → Bool → List Bytes → Option (List Bytes × Bool)
+  | [], inc, acc => some (acc, inc)
+  | rel :: rels, inc, acc =>
+    match alpJsonRel json rel alpRepos inc acc with
     | none => none
-    | some acc' => alpWalkJson json rels acc'
+    | some (acc', inc') => alpWalkJson json rels inc' acc'
 
-/-- The whole walk: names of the updaters of the new set (`none` = a request
-    failed and `UpdaterSet` returns an error). -/
-def alpWalk (dir : Nat → Nat → Probe) (json : Bytes → Bytes → Probe) (fuel : Nat) : Option (List Bytes) :=
-  match alpWalkMajor dir fuel fuel 3 [] with
+/-- The whole walk: names of the updaters of the new set, and whether the
+    walk was complete (every answer was 200 or 404).  `none` = a request
+    failed and `UpdaterSet` returns an error. -/
+def alpWalk (dir : Nat → Nat → Probe) (json : Bytes → Bytes → Probe) (fuel : Nat) : Option (List Bytes × Bool) :=
+  match alpWalkMajor dir fuel fuel 3 false [] with
   | none => none
-  | some rels => alpWalkJson json (rels.map alpRelString ++ [ClairModel.Gen.JoinReleases.alpine.edgeVersion]) []
+  | some (rels, inc) =>
+    match alpWalkJson json (rels.map alpRelString ++ [ClairModel.Gen.JoinReleases.alpine.edgeVersion]) inc [] with
+    | none => none
+    | some (names, inc') => some (names, !inc')
 
 /-- The factory's state: the stamp and etag of the last completed walk and
     the names of the updaters of the set it produced. -/
@@ -164,8 +174,9 @@ inductive AlpEvent where
   | notModified
   /-- the server holds the body `stamp` under the validator `etag` (it answers
       a matching `If-None-Match` with 304); `walk`: what the walk over the
-      mirror yields if it is performed (`none` = a request of it fails) -/
-  | stampIs (stamp : Nat) (etag : Bytes) (walk : Option (List Bytes))
+      mirror yields if it is performed (`none` = a request of it fails; the
+      flag: every answer was 200 or 404) -/
+  | stampIs (stamp : Nat) (etag : Bytes) (walk : Option (List Bytes × Bool))
   deriving Repr
 
 inductive AlpOut where
@@ -179,13 +190,17 @@ inductive AlpOut where
 def alpKeeps (s : AlpState) (st : Nat) (etag : Bytes) : Bool :=
   (s.etag != [] && s.etag == etag) || s.stamp == some st
 
+/-- After fix 9c7e43c2: a walk in which some answer was neither 200 nor 404
+    still yields its set for this call, but stamp, etag and set are not
+    stored. -/
 def alpStep (s : AlpState) : AlpEvent → AlpState × AlpOut
   | .stampFault => (s, .err)
   | .notModified => (s, .set s.cur)
   | .stampIs st etag walk =>
     if alpKeeps s st etag then (s, .set s.cur)
     else match walk with
-      | some found => ({ stamp := some st, etag := etag, cur := found }, .set found)
+      | some (found, true) => ({ stamp := some st, etag := etag, cur := found }, .set found)
+      | some (found, false) => (s, .set found)
       | none => (s, .err)
 
 end ClairModel.Join
